@@ -17,6 +17,10 @@ type prodLog struct {
 	views []lineView
 	meta  []lineMeta // nil when production order is not known by construction
 	prot  []int      // indices of protected lines
+	// sampleBytes: byte changes at sampled offsets only, also for a small log (the log-level histories: their point is
+	// the chain structure; every byte of small logs is covered by the seeded logs of phase (b))
+	sampleBytes bool
+	hist        *histInfo // phase (e) only
 }
 
 func newProdLog(spec *logSpec, data []byte, meta []lineMeta) *prodLog {
@@ -241,7 +245,7 @@ func (L *prodLog) genEdits(r *gen.Rand, byteBudget int, light bool, yield func(e
 	chain, cidx := L.chainIndex()
 
 	// --- byte changes
-	exhaustive := len(L.data) <= 2048 && (!light || r.Intn(4) == 0)
+	exhaustive := len(L.data) <= 2048 && !L.sampleBytes && (!light || r.Intn(4) == 0)
 	for _, i := range L.prot {
 		line := L.lines[i]
 		v := &L.views[i]
